@@ -34,7 +34,7 @@ outcome ∈ ok err panic; only ok / not-ok is compared.  At every `liq.state` li
 with the real projection (DIFF) and the monitors of the property named in `liq.begin` are evaluated on the REAL
 projection (MON).  Monitor names: C04 — escrow_requests pair_escrow farm_custody zero_supply_disabled
 poolcoin_supply repo_invariants; C07 — taken_exact settled_exact cancellable mm_cancel_all cancel_all_cancels_all
-mm_index_complete; both — migration_identity.
+mm_index_complete fee_collector_exact; both — migration_identity.
 -/
 -- DRIVER: prefix=lq ns=Comdex.Drv.LiqLedger
 namespace Comdex.Drv.LiqLedger
@@ -527,7 +527,8 @@ def monitors (st : St) (cur : State) : List String :=
     let placing := match st.lastOp with | some (.order ..) => true | some (.mmOrder ..) => true | _ => false
     let explained := monUsersExplained st.cfg prev cur st.lastOp st.lastOk
     m (if placing then "taken_exact" else "settled_exact") explained
-    ++ m "settled_exact" (monEscrowExact st.cfg st.s cur && monFeeFwd st.cfg prev cur)
+    ++ m "settled_exact" (monEscrowExact st.cfg st.s cur)
+    ++ m "fee_collector_exact" (monFeeFwd st.cfg prev cur)
     ++ m "cancellable" (monCancellable st.cfg prev st.lastOp st.lastOk)
     ++ m "mm_cancel_all" (monMMCancelAll prev cur st.lastOp st.lastOk)
     ++ m "cancel_all_cancels_all" (monCancelAll st.cfg prev cur st.lastOp st.lastOk)
